@@ -15,7 +15,7 @@ RULE = ("random trees over every node kind (built-in and registered logging infi
 def slot_classes(tree, ev_log_ids, out, faulted):
     """coverage classes: which child slots of which node kinds were evaluated / skipped"""
     def ids(a):
-        return [int(x[2][0][1]) for x in gen.subtrees(a) if x[0] == "fn" and x[1] in ("t", "gt") and x[2] and x[2][0][0] == "num"]
+        return [int(x[2][0][1]) for x in gen.subtrees(a) if x[0] == "fn" and x[1] in ("t", "gt", "sh") and x[2] and x[2][0][0] == "num"]
 
     for x in gen.subtrees(tree):
         k = x[0]
@@ -67,7 +67,7 @@ def run_shard(desc):
             continue
         if st == "pass":
             part["counts"]["handler_invocations_logged"] += len(ev.log)
-            seen = {int(e[3][0][1]) for e in ev.log if e[2] in ("t", "gt") and e[3] and e[3][0][0] == "n"}
+            seen = {int(e[3][0][1]) for e in ev.log if e[2] in ("t", "gt", "sh") and e[3] and e[3][0][0] == "n"}
             slot_classes(p["tree"], seen, part["classes"], p["fault"] is not None)
             if p["fault"]:
                 part["classes"].add("fault-position:%d" % p["fault"][0])
